@@ -144,6 +144,18 @@ ArityCases ==
    CaseOf("C06/count/callplusvalue", Prelude \o <<Def(<<"p", "q", "z">>, <<CallE("m2", <<>>), I("3")>>)>>),
    CaseOf("C06/count/ret1of2", Prelude \o <<Func("g", <<>>, <<"int", "int">>, <<RetS(<<I("1")>>)>>)>>), CaseOf("C06/count/ret3of2", Prelude \o <<Func("g", <<>>, <<"int", "int">>, <<RetS(<<I("1"), I("2"), I("3")>>)>>)>>),
    CaseOf("C06/count/retmulti", Prelude \o <<Func("g", <<>>, <<"int", "int">>, <<RetS(<<CallE("m2", <<>>)>>)>>)>>),
+   \* a call with several results as the ONLY argument of a builtin that takes several arguments, or exactly one
+   CaseX("C06/builtin/write-multi", Prelude \o <<Func("p2", <<>>, <<"string", "string">>, <<RetS(<<StrL("f.txt"), StrL("d")>>)>>), [k |-> "rawline", text |-> "write(p2())"]>>, "reject"),
+   CaseX("C06/builtin/write-multi-grp", Prelude \o <<Func("p2", <<>>, <<"string", "string">>, <<RetS(<<StrL("f.txt"), StrL("d")>>)>>), [k |-> "rawline", text |-> "write((p2()))"]>>, "reject"),
+   CaseX("C06/builtin/write-app", Prelude \o <<[k |-> "rawline", text |-> "write(@ls(\"-l\"))"]>>, "reject"),
+   CaseX("C06/builtin/write-multi-nested", Prelude \o <<Func("p2", <<>>, <<"string", "string">>, <<RetS(<<StrL("f.txt"), StrL("d")>>)>>), Func("w", <<>>, <<>>, <<For3(Def1("k", I("0")), CmpE("<", Var("k"), I("1")), Inc("k"), <<[k |-> "rawline", text |-> "write(p2())"]>>)>>)>>, "reject"),
+   CaseX("C06/builtin/copy-multi", Prelude \o <<Func("s2", <<>>, <<"[]int", "[]int">>, <<RetS(<<Var("si"), Var("si")>>)>>), Def1("r", [k |-> "rawtext", text |-> "copy(s2())"])>>, "reject"),
+   CaseX("C06/builtin/len-multi", Prelude \o <<Def1("r", [k |-> "rawtext", text |-> "len(m2())"])>>, "reject"),
+   CaseX("C06/builtin/itoa-multi", Prelude \o <<Def1("r", [k |-> "rawtext", text |-> "itoa(m2())"])>>, "reject"),
+   CaseX("C06/builtin/exists-app", Prelude \o <<Def1("r", [k |-> "rawtext", text |-> "exists(@ls())"])>>, "reject"),
+   CaseX("C06/builtin/read-multi", Prelude \o <<Func("p2", <<>>, <<"string", "string">>, <<RetS(<<StrL("f.txt"), StrL("d")>>)>>), Def1("r", [k |-> "rawtext", text |-> "read(p2())"])>>, "reject"),
+   CaseX("C06/builtin/input-multi", Prelude \o <<Func("p2", <<>>, <<"string", "string">>, <<RetS(<<StrL("f.txt"), StrL("d")>>)>>), Def1("r", [k |-> "rawtext", text |-> "input(p2())"])>>, "reject"),
+   CaseX("C06/builtin/panic-multi", Prelude \o <<Func("p2", <<>>, <<"string", "string">>, <<RetS(<<StrL("f.txt"), StrL("d")>>)>>), [k |-> "rawline", text |-> "panic(p2())"]>>, "reject"),
    CaseX("C06/builtin/len0", Prelude \o <<Def1("r", [k |-> "rawtext", text |-> "len()"])>>, "reject"), CaseX("C06/builtin/len2", Prelude \o <<Def1("r", [k |-> "rawtext", text |-> "len(xs, xs)"])>>, "reject"),
    CaseX("C06/builtin/write1", Prelude \o <<[k |-> "rawline", text |-> "write(xs)"]>>, "reject"), CaseX("C06/builtin/write4", Prelude \o <<[k |-> "rawline", text |-> "write(xs, xs, xb, xb)"]>>, "reject"),
    CaseX("C06/builtin/copy1", Prelude \o <<Def1("r", [k |-> "rawtext", text |-> "copy(si)"])>>, "reject"), CaseX("C06/builtin/copydstexpr", Prelude \o <<Def1("r", [k |-> "rawtext", text |-> "copy([]int{1}, si)"])>>, "reject"),
